@@ -2,6 +2,7 @@ package sim
 
 import (
 	"fmt"
+	"runtime"
 	"hash/fnv"
 	"math/rand"
 	"sort"
@@ -41,6 +42,8 @@ type Engine struct {
 	active  atomic.Bool
 	parked  []*parkedG
 	names   map[int64]string
+	autoRole map[int64]string
+	nameCount map[string]int
 	noYield map[int64]int
 	arrival uint64
 
@@ -59,6 +62,7 @@ type Engine struct {
 	Switches   uint64
 	ClockAdv   time.Duration
 	fairnessK  int
+	DumpAtStep uint64
 	ClockJumps uint64
 	Forced     uint64
 	idleRounds int
@@ -81,6 +85,8 @@ type Engine struct {
 func NewEngine(s Sched, groups []string) *Engine {
 	e := &Engine{
 		names:     map[int64]string{},
+		autoRole:  map[int64]string{},
+		nameCount: map[string]int{},
 		noYield:   map[int64]int{},
 		sched:     s,
 		SiteHits:  map[string]uint64{},
@@ -176,6 +182,14 @@ func (e *Engine) NameOf(gid int64) string {
 
 func (e *Engine) nameLocked(gid int64, site string, id uint64) string {
 	if n, ok := e.names[gid]; ok {
+		// an automatically named goroutine that later reports an actor id gets
+		// the id appended once (e.g. commit callbacks: "txncb" -> "txncb#<commitTs>"),
+		// so that goroutines of one role woken by the same event stay distinguishable
+		if r, auto := e.autoRole[gid]; auto && id != 0 {
+			n = fmt.Sprintf("%s#%d", r, id)
+			e.names[gid] = n
+			delete(e.autoRole, gid)
+		}
 		return n
 	}
 	r := site
@@ -187,6 +201,16 @@ func (e *Engine) nameLocked(gid int64, site string, id uint64) string {
 	n := role(r) + actor
 	if id != 0 {
 		n = fmt.Sprintf("%s#%d", n, id)
+	} else {
+		e.autoRole[gid] = n
+		// several goroutines of one role (e.g. merge operators on one key) are
+		// told apart by their creation order, which is decided by the schedule
+		if c := e.nameCount[n]; c > 0 {
+			e.nameCount[n] = c + 1
+			n = fmt.Sprintf("%s/%d", n, c)
+		} else {
+			e.nameCount[n] = 1
+		}
 	}
 	e.names[gid] = n
 	return n
@@ -230,6 +254,18 @@ func (e *Engine) SetGroups(groups []string) {
 	for _, g := range groups {
 		e.enabled[g] = true
 	}
+}
+
+// ParkedAt reports the site a named goroutine is currently parked at ("" = not parked).
+func (e *Engine) ParkedAt(name string) string {
+	e.mu.Lock()
+	defer e.mu.Unlock()
+	for _, p := range e.parked {
+		if p.name == name {
+			return p.site
+		}
+	}
+	return ""
 }
 
 // Point lets harness code (clients) yield.
@@ -394,9 +430,18 @@ func (e *Engine) Run(done func() bool, maxSteps uint64) RunResult {
 		e.mix(pick.name)
 		e.mix(pick.site)
 		if e.KeepTrace {
-			e.TraceLog = append(e.TraceLog, fmt.Sprintf("%d run %s @ %s t=%d", e.Steps, pick.name, pick.site, time.Now().UnixNano()%1000000000000))
+			var el []string
+			for _, p := range elig {
+				el = append(el, p.name+"@"+p.site)
+			}
+			e.TraceLog = append(e.TraceLog, fmt.Sprintf("%d run %s @ %s t=%d elig=%v", e.Steps, pick.name, pick.site, time.Now().UnixNano()%1000000000000, el))
 		}
 		e.mu.Unlock()
+		if e.DumpAtStep != 0 && e.Steps == e.DumpAtStep {
+			buf := make([]byte, 1<<20)
+			n := runtime.Stack(buf, true)
+			e.TraceLog = append(e.TraceLog, "STACKS\n"+string(buf[:n]))
+		}
 		close(pick.ch)
 	}
 }
